@@ -45,7 +45,8 @@ def run(work, module, cfg=None, workers=None, env=None, timeout=3600, dump=False
     cfg = cfg or (module + '.cfg')
     tag = tag or cfg.replace('.cfg', '')
     meta = os.path.join(work, 'md_' + tag)
-    cmd = ['java', '-Xmx' + heap] + JAVA_OPTS + ['-cp', JAR + ':' + DEPS, 'tlc2.TLC',
+    # TLC's scratch directories (tlc-<n>) go under the work directory, which is removed at the end of the run
+    cmd = ['java', '-Xmx' + heap, '-Djava.io.tmpdir=' + work] + JAVA_OPTS + ['-cp', JAR + ':' + DEPS, 'tlc2.TLC',
            '-workers', str(workers or common.NPROC), '-metadir', meta, '-noGenerateSpecTE',
            '-config', cfg]
     if deadlock:
@@ -317,7 +318,7 @@ def read_sim_traces(prefix_dir):
 
 
 def sany(work, module):
-    cmd = ['java'] + JAVA_OPTS + ['-cp', JAR + ':' + DEPS, 'tla2sany.SANY', module + '.tla']
+    cmd = ['java', '-Djava.io.tmpdir=' + work] + JAVA_OPTS + ['-cp', JAR + ':' + DEPS, 'tla2sany.SANY', module + '.tla']
     p = subprocess.run(cmd, cwd=work, stdout=subprocess.PIPE, stderr=subprocess.STDOUT, timeout=300)
     out = p.stdout.decode('utf-8', 'replace')
     ok = p.returncode == 0 and 'Semantic errors' not in out and 'Parse Error' not in out and 'Fatal' not in out
